@@ -205,3 +205,68 @@ def iter_stmts(body: Iterable[ast.stmt]) -> Iterator[ast.stmt]:
                 yield from iter_stmts(sub)
         for h in getattr(st, "handlers", []) or []:
             yield from iter_stmts(h.body)
+
+
+# -- independence from local variable names ---------------------------------------------------------
+def ast_copy(node):
+    """structural copy of an AST (fields and positions only: the `_parent` back links are NOT followed, a plain
+    copy.deepcopy would drag the whole module along through them)"""
+    if isinstance(node, ast.AST):
+        new = node.__class__()
+        for f in node._fields:
+            if hasattr(node, f):
+                setattr(new, f, ast_copy(getattr(node, f)))
+        for a in getattr(node, "_attributes", ()):
+            if hasattr(node, a):
+                setattr(new, a, getattr(node, a))
+        return new
+    if isinstance(node, list):
+        return [ast_copy(x) for x in node]
+    return node
+
+
+def renamed_copy(fn: ast.AST, mapping: dict) -> ast.AST:
+    """Deep copy of `fn` with local names replaced according to `mapping` (actual name -> canonical role name), parent
+    links set.  Rules discover the roles structurally (what a variable is assigned from / stored into) and then match
+    their patterns against the canonical names, so renaming a local in pymoca does not change a verdict."""
+    new = ast_copy(fn)
+    for n in ast.walk(new):
+        if isinstance(n, ast.Name) and n.id in mapping:
+            n.id = mapping[n.id]
+        elif isinstance(n, ast.ExceptHandler) and n.name in mapping:
+            n.name = mapping[n.name]
+    for n in ast.walk(new):
+        for c in ast.iter_child_nodes(n):
+            c._parent = n  # type: ignore[attr-defined]
+    return new
+
+
+def single_defs(stmts: Iterable[ast.stmt]) -> dict:
+    """locals of a statement list that are bound exactly once, by a plain `name = expr` (no loops/augmented/tuple targets)"""
+    count, val = {}, {}
+    for st in stmts:
+        for n in ast.walk(st):
+            if isinstance(n, ast.Name) and isinstance(n.ctx, (ast.Store, ast.Del)):
+                count[n.id] = count.get(n.id, 0) + 1
+            elif isinstance(n, ast.ExceptHandler) and n.name:
+                count[n.name] = count.get(n.name, 0) + 1
+        if isinstance(st, ast.Assign) and len(st.targets) == 1 and isinstance(st.targets[0], ast.Name):
+            val[st.targets[0].id] = st.value
+    return {k: v for k, v in val.items() if count.get(k) == 1}
+
+
+def inlined(expr: ast.AST, stmts: Iterable[ast.stmt], keep=(), depth: int = 6) -> ast.AST:
+    """`expr` with every local that `stmts` bind exactly once (plain assignment) replaced by its value, recursively: the
+    text of the result does not depend on the names (or the existence) of such temporaries."""
+    defs = single_defs(list(stmts))
+
+    class T(ast.NodeTransformer):
+        def __init__(self, d):
+            self.d = d
+
+        def visit_Name(self, n):
+            if isinstance(n.ctx, ast.Load) and n.id in defs and n.id not in keep and self.d > 0:
+                return T(self.d - 1).visit(ast_copy(defs[n.id]))
+            return n
+
+    return T(depth).visit(ast_copy(expr))
